@@ -71,3 +71,36 @@ contract(MGR + '.__init__', props=['C05'], blocks_only=True,
              modifies=[])},
          loops={'0': dict(idx='i', seq='order', inv=[
              'forall(lambda j: implies(0 <= j and j < i, inside_global(self, elems(order)[j])))'])})
+
+
+# ---- the lines that select / create zones in source ---------------------------------------------------------------------
+from pyvc.registry import declare_fields  # noqa: E402
+declare_fields('CreateMemzoneLine', _name='str', _start_addr='int', _end_addr='int')
+ZNAME = 'ite(name_str is None, "GLOBAL", value_of(name_str))'
+# `.memzone NAME` / `.org A "NAME"`: the line belongs to the zone of that name (GLOBAL when none is given); an unknown name
+# is rejected
+contract('bespokeasm.assembler.line_object.directive_line.memzone:SetMemoryZoneLine.__init__', name='select-zone',
+         props=['C05', 'C02'], params={'name_str': 'str?'},
+         raises={'SystemExit': f'not ({ZNAME} in memzone_manager._zones)'},
+         ensures=[f'self._memzone is mapping(memzone_manager._zones)[{ZNAME}]', f'self._name == {ZNAME}',
+                  'self._memzone_manager is memzone_manager'],
+         modifies=['self._memzone_manager', 'self._name', 'self._line_id', 'self._instruction', 'self._comment', 'self._address',
+                   'self._memzone', 'self._compilable', 'self._is_muted', 'self._label_scope'],
+         no_frame_check=True)
+
+contract('bespokeasm.utilities:parse_numeric_string', props=['C05'], assumed=True,
+         reason='numeric literal notation (regex based; its notations are covered by the bounded stand-in of C07)',
+         may_raise={'SystemExit': 'True', 'ValueError': 'True'}, ensures=[], modifies=[], no_frame_check=True)
+# `#create_memzone NAME start end`: the zone registered under NAME is exactly [start, end], and only if it lies inside GLOBAL
+contract('bespokeasm.assembler.line_object.preprocessor_line.create_memzone:CreateMemzoneLine.__init__', name='create-zone-line',
+         props=['C05'], params={'memzone': 'MemoryZone?', 'isa_model': 'AssemblerModel'},
+         requires=['zones_wf(memzone_manager)', 'cfg_int(isa_model._config["general"]["address_size"]) >= 0'],
+         # (none of the three groups of the directive's pattern is optional: trusted fact about that regular expression)
+         regex_facts={'CreateMemzoneLine.PATTERN_CREATE_MEMORY_ZONE': [1, 2, 3]},
+         may_raise={'SystemExit': 'True', 'ValueError': 'True', 'KeyError': 'True'},
+         ensures=['self._name in memzone_manager._zones',
+                  'mapping(memzone_manager._zones)[self._name]._start == self._start_addr',
+                  'mapping(memzone_manager._zones)[self._name]._end == self._end_addr',
+                  'inside_global(memzone_manager, mapping(memzone_manager._zones)[self._name])',
+                  'zones_wf(memzone_manager)'],
+         modifies=['memzone_manager._zones[*]'], allocates=True, no_frame_check=True)
